@@ -37,6 +37,11 @@ claim("C13",
       "Bounds in the evidence assumptions. Known finding: ZUNIONSTORE with a destination spelled like the command word panics (argument removal hack pinned by the repository's tests).",
       "DESIGN.md C13")
 
+claim("C20",
+      "Database indices are symbolic: every data command run with database i selected must leave the same-named keys, deadlines and volatile index of any other database j untouched; FLUSHDB empties only i, FLUSHALL all; SELECT moves only the issuing TCP connection (and its next write lands in the selected database); SWAPDB exchanges the two databases for every TCP connection and leaves bystanders, the embedded caller and the data alone. TCP commands go through the real dispatcher including the ACL gate.",
+      "Bounds in the evidence assumptions; persistence of database placement is covered by the persistence properties.",
+      "DESIGN.md C20")
+
 # every property without a claim is listed as not applicable (yet) with its reason
 NA_REASONS = {}
 for n in range(1, 21):
